@@ -24,7 +24,7 @@ func init() {
 		Rule: "seeded histories of 3..14 operations on up to three instances (Absorb of 1..6 blocks split over several calls, Squeeze of 1..4 blocks in several calls with 1..64 destination lanes, Clone at any point with the two copies continued differently, Reset followed by new absorbs, zero-length Absorb and Squeeze pieces (no effect in the model whether refused or accepted; no Absorb follows an empty Squeeze), rejected calls with batch 0/65 or a length that is no multiple of 243) with batch sizes 1..64 (emphasis 1, 2, 63, 64) and trit contents random / all 0 / all 1 / all -1 / lanes identical but one trit / one hot lane; every squeezed lane is compared with a single-lane model sponge fed that lane's input alone; rejected calls must return the documented error and leave CopyState unchanged; Reset must give the CopyState of a fresh instance; a clone's state equals the original's and later operations on one do not change the other; the closing squeezes of all instances of a history (originals and clones) run concurrently in separate goroutines; in half of the histories the caller's dst slice is reused from call to call (a quarter pre-filled with one shared placeholder slice) and every output handed out earlier must be unchanged at the end. Run under the default (assembly) and the purego build; the output digests of the two builds must be equal. " +
 			"Non-trivial: distinct histories with batch size < 64, or >= 2 absorb calls, or >= 2 squeeze calls, or a clone/reset.",
 		Assumptions: []string{"the single-lane Curl-P-81 model in harness/oracle/curlp (self-tested on published Curl-P-81 hashes incl. multi-block absorb and squeeze)", "absorb-after-squeeze (documented panic) and lanes beyond the absorbed batch are outside the statement and not judged"},
-		Builds:      []string{"default", "purego", "386"},
+		Builds:      []string{"default", "default+cpuoff", "purego", "386"}, // +cpuoff: the default binary with GODEBUG=cpu.all=off (fallback paths of run-time CPU dispatch)
 		SelfTest:    curlp.SelfTest,
 		Gen:         gen,
 		Judge:       judge,
@@ -35,10 +35,13 @@ func init() {
 		Required: []string{"histories reusing the caller's dst slice", "histories whose instances were squeezed concurrently", "lanes compared", "absorb calls", "squeeze calls", "clones", "resets", "rejected calls checked", "partial batch histories", "zero-length absorb/squeeze calls"},
 		Post: func(r *fw.RunResult) {
 			d, p := r.BuildDigests["default"], r.BuildDigests["purego"]
+			if c := r.BuildDigests["default+cpuoff"]; c != d {
+				p = c
+			}
 			r.Extra["build_digests_equal"] = d == p && d != ""
-			if d != p && r.ViolTotal == 0 {
+			if d != p && r.ViolTotal == 0 && !r.Incomplete {
 				r.AddViolation(fw.Violation{Class: "cross-build", VClass: "digest", KeyHex: "",
-					Message: fmt.Sprintf("squeezed outputs differ between the default (assembly) and the purego build: per-shard digests %s vs %s", d, p)})
+					Message: fmt.Sprintf("squeezed outputs differ between the default (assembly) build and the purego build or the default build run with GODEBUG=cpu.all=off: per-shard digests %s vs %s", d, p)})
 			}
 		},
 	})
